@@ -46,7 +46,7 @@ fn check_file(lines: Vec<String>) {
 macro_rules! file_harness {
     ($name:ident, $($line:expr),+) => {
         #[kani::proof]
-        #[kani::unwind(12)]
+        #[kani::unwind(20)]
         #[kani::stub(std::backtrace::Backtrace::capture, crate::verif_support::stub_backtrace_capture)]
         #[kani::stub(crate::string_manager::StringManager::gc, crate::verif_support::stub_gc)]
         #[kani::stub(alloc::fmt::format, crate::verif_support::stub_format)]
